@@ -86,6 +86,11 @@ pub enum FaultKind {
     /// the positive indication FOLLOWED by an error-severity rpc-error (inside
     /// load-configuration-results for a load); not performed
     OkThenError,
+    /// load-configuration only (elsewhere like RpcError): the router refuses the route-filter
+    /// statements of the payload ("configuration database size limit exceeded") but merges what it
+    /// could create - the term with its family match and its accept - into the open database, and
+    /// reports the error. If that database is committed, the term accepts the whole family.
+    LoadPartial,
     /// a well-formed <rpc-reply> without any content where the operation's positive reply has some
     /// (<ok/>, <data>, load-configuration-results): no acknowledgement; not performed. For the
     /// operations whose positive reply IS empty (open-/close-configuration) this is not a fault.
@@ -613,7 +618,7 @@ impl Junos {
             applied: false,
         };
         op.paths("", &mut rec.paths);
-        let refuse = matches!(fault, Some(FaultKind::RpcError | FaultKind::LoadErrorInResults | FaultKind::LoadErrorThenOk | FaultKind::OkThenError | FaultKind::CloseBeforeReply))
+        let refuse = matches!(fault, Some(FaultKind::RpcError | FaultKind::LoadErrorInResults | FaultKind::LoadErrorThenOk | FaultKind::OkThenError | FaultKind::LoadPartial | FaultKind::CloseBeforeReply))
             || (fault == Some(FaultKind::EmptyBody) && !matches!(op.local.as_str(), "open-configuration" | "close-configuration"));
         // ---- perform the operation on the model
         let mut warnings: Vec<String> = Vec::new();
@@ -663,6 +668,22 @@ impl Junos {
                 } else if !fmt_ok || action != "merge" {
                     rec.server_complaint = Some(format!("load-configuration with format/action {:?}/{action}", op.attr("format")));
                     Err("unsupported load format/action".into())
+                } else if fault == Some(FaultKind::LoadPartial) {
+                    // merge the payload, then take the route-filters it added out again
+                    if let Some(cfg) = cfg {
+                        let (_, db) = self.sessions[sid].open.as_mut().unwrap();
+                        let before = db.clone();
+                        if apply_load(db, cfg).is_ok() {
+                            for (name, pol) in db.iter_mut() {
+                                let old = before.iter().find(|(n, _)| n == name).map(|(_, p)| p);
+                                for t in &mut pol.terms {
+                                    let old_filters: Vec<_> = old.and_then(|p| p.terms.iter().find(|ot| ot.name == t.name)).map(|ot| ot.filters.clone()).unwrap_or_default();
+                                    t.filters.retain(|f| old_filters.contains(f));
+                                }
+                            }
+                        }
+                    }
+                    Ok(String::new())
                 } else if refuse {
                     Ok(String::new())
                 } else {
@@ -736,7 +757,11 @@ impl Junos {
                     rec.reply = ReplyKind::Negative;
                     msgs.push(reply_doc(&id, &rpc_error("error", "operation-failed", "injected failure")));
                 }
-                FaultKind::LoadErrorInResults => {
+                FaultKind::LoadPartial if op.local != "load-configuration" => {
+                    rec.reply = ReplyKind::Negative;
+                    msgs.push(reply_doc(&id, &rpc_error("error", "operation-failed", "injected failure")));
+                }
+                FaultKind::LoadErrorInResults | FaultKind::LoadPartial => {
                     rec.reply = ReplyKind::Negative;
                     msgs.push(reply_doc(&id, &format!("<load-configuration-results>{}<load-error-count>1</load-error-count></load-configuration-results>", rpc_error("error", "operation-failed", "configuration database size limit exceeded"))));
                 }
